@@ -31,7 +31,9 @@ THEOREMS = ['C11_inverse_den', 'C11_inverse_complcell_rejects',
             'C11_pot_complement_den', 'C11_pot_complement_lattice_empty',
             'C11_parse_print_tokens', 'C11_lex_render',
             'C11_parse_print_canonical', 'C11_parse_print',
-            'C11_layout_exists',
+            'C11_layout_exists', 'C11_pipeline',
+            'C11_parse_psem', 'C11_accepted_iff',
+            'C11_nested_rejected', 'C11_colon_hash_rejected',
             'C11_nested_refuted', 'C11_colon_hash_refuted']
 TRUSTED = [
     'hand-written model coq/C11/Model.v: lexer + pushdown precedence parser '
@@ -51,8 +53,8 @@ ASSUMPTIONS = [
     'in input',
     'surface numbers are non-zero; facet suffix is one digit',
     'layout family of C11_parse_print: any blanks before/after tokens and '
-    'after #, any digit spelling, optional +; redundant parentheses are '
-    'covered by the ties only',
+    'after #, any digit spelling, optional +, redundant parentheses as '
+    'MParen nodes of the expression',
     'complement of a lattice cell: the code returns an empty intersection; '
     'tied and proved empty, not compared with MCNP',
 ]
@@ -573,8 +575,11 @@ def sweep_expr(res, ref, e, text, out, origin):
     for bits in assignments:
         sigma = dict(zip(at + cell_atoms, bits))
         want = ref.holds(e, sigma)
-        got = tree_eval(out[1], sigma,
-                        lambda n, s: s[(100 + n, None)])
+        try:
+            got = tree_eval(out[1], sigma,
+                            lambda n, s: s[(100 + n, None)])
+        except KeyError as exc:     # a surface/facet the expression lacks
+            got = f'undefined (tree refers to {exc})'
         if want != got:
             res.count(f'{origin}:sweep-FAIL')
             shown = {f'{k[0]}' + (f'.{k[1]}' if k[1] else ''): v
